@@ -124,8 +124,9 @@ var binopName = map[token.Token]string{
 
 // Origins computes origin terms for the values of one function (memoised).
 type Origins struct {
-	Fn   *ssa.Function
-	memo map[ssa.Value]*Term
+	Fn     *ssa.Function
+	inprog map[*ssa.Phi]bool
+	memo   map[ssa.Value]*Term
 	// stores per (struct type, field index) through non-local bases
 	fieldStores map[fieldKey][]*ssa.Store
 	built       bool
@@ -137,7 +138,7 @@ type fieldKey struct {
 }
 
 func NewOrigins(fn *ssa.Function) *Origins {
-	return &Origins{Fn: fn, memo: map[ssa.Value]*Term{}}
+	return &Origins{Fn: fn, memo: map[ssa.Value]*Term{}, inprog: map[*ssa.Phi]bool{}}
 }
 
 func (o *Origins) build() {
@@ -255,12 +256,17 @@ func (o *Origins) compute(v ssa.Value, depth int) *Term {
 		// address of a field: described as the field itself (loads are transparent)
 		return &Term{Op: "field", Name: fieldName(x.X.Type(), x.Field), Args: []*Term{o.of(x.X, depth+1)}}
 	case *ssa.IndexAddr:
-		return &Term{Op: "op", Name: "idx", Args: []*Term{o.of(x.X, depth+1), o.of(x.Index, depth+1)}}
+		return o.indexTerm(x.X, x.Index, depth)
 	case *ssa.Index:
-		return &Term{Op: "op", Name: "idx", Args: []*Term{o.of(x.X, depth+1), o.of(x.Index, depth+1)}}
+		return o.indexTerm(x.X, x.Index, depth)
 	case *ssa.Lookup:
 		return &Term{Op: "op", Name: "lookup", Args: []*Term{o.of(x.X, depth+1), o.of(x.Index, depth+1)}}
 	case *ssa.Slice:
+		if a, ok := x.X.(*ssa.Alloc); ok && x.Low == nil && x.High == nil {
+			if l := o.arrayLiteral(a, depth); l != nil {
+				return l
+			}
+		}
 		return &Term{Op: "op", Name: "slice", Args: []*Term{o.of(x.X, depth+1)}}
 	case *ssa.UnOp:
 		switch x.Op {
@@ -304,19 +310,27 @@ func (o *Origins) compute(v ssa.Value, depth int) *Term {
 		if len(x.Edges) > 8 {
 			return opaque("phi-wide")
 		}
+		if o.inprog[x] {
+			return &Term{Op: "param", Name: "#self"}
+		}
+		o.inprog[x] = true
+		defer delete(o.inprog, x)
 		var as []*Term
 		seen := map[string]bool{}
 		for _, e := range x.Edges {
 			if e == v {
 				continue
 			}
-			t := o.of(e, depth+3)
+			t := o.of(e, depth+2)
 			s := t.String()
-			if seen[s] {
+			if s == "#self" || seen[s] {
 				continue
 			}
 			seen[s] = true
 			as = append(as, t)
+		}
+		if len(as) == 0 {
+			return opaque("phi-empty")
 		}
 		if len(as) == 1 {
 			return as[0]
@@ -341,6 +355,75 @@ func (o *Origins) compute(v ssa.Value, depth int) *Term {
 		return o.of(x.X, depth+1)
 	}
 	return opaque("value")
+}
+
+// indexTerm: x[i]; an index that depends on a loop-carried value is an arbitrary element: elem(x).
+func (o *Origins) indexTerm(x, i ssa.Value, depth int) *Term {
+	it := o.of(i, depth+1)
+	loop := false
+	it.Walk(func(t *Term) bool {
+		if t.Op == "param" && t.Name == "#self" {
+			loop = true
+		}
+		return !loop
+	})
+	if loop || it.HasOpaque() && isLoopIndex(i) {
+		return &Term{Op: "op", Name: "elem", Args: []*Term{o.of(x, depth+1)}}
+	}
+	return &Term{Op: "op", Name: "idx", Args: []*Term{o.of(x, depth+1), it}}
+}
+
+func isLoopIndex(i ssa.Value) bool {
+	switch x := i.(type) {
+	case *ssa.Phi:
+		return true
+	case *ssa.BinOp:
+		return isLoopIndex(x.X) || isLoopIndex(x.Y)
+	}
+	return false
+}
+
+// arrayLiteral: a local array all of whose elements are stored exactly once at constant indexes
+// (the lowering of variadic arguments and slice literals): list(e0,e1,...).
+func (o *Origins) arrayLiteral(a *ssa.Alloc, depth int) *Term {
+	arr, ok := derefStruct(a.Type()).Underlying().(*types.Array)
+	if !ok || arr.Len() > 16 {
+		return nil
+	}
+	elems := make([]*Term, arr.Len())
+	for _, r := range *a.Referrers() {
+		switch x := r.(type) {
+		case *ssa.IndexAddr:
+			k, ok := x.Index.(*ssa.Const)
+			if !ok || k.Value == nil {
+				return nil
+			}
+			idx := int(k.Int64())
+			if idx < 0 || idx >= len(elems) {
+				return nil
+			}
+			for _, rr := range *x.Referrers() {
+				st, ok := rr.(*ssa.Store)
+				if !ok || st.Addr != x {
+					// element address used otherwise (e.g. field stores of a struct literal element)
+					continue
+				}
+				if elems[idx] != nil {
+					return nil
+				}
+				elems[idx] = o.of(st.Val, depth+2)
+			}
+		case *ssa.Slice:
+		default:
+			return nil
+		}
+	}
+	for i, e := range elems {
+		if e == nil {
+			elems[i] = &Term{Op: "call", Name: "zero:elem"}
+		}
+	}
+	return &Term{Op: "op", Name: "list", Args: elems}
 }
 
 func isTransparentConv(c *ssa.Convert) bool {
@@ -380,17 +463,69 @@ func (o *Origins) callTerm(c *ssa.CallCommon, depth int) *Term {
 				}
 			}
 		}
-		as := append([]*Term{o.of(c.Value, depth+1)}, o.args(c.Args, depth)...)
+		as := append([]*Term{o.of(c.Value, depth+1)}, spliceVariadic(c, o.args(c.Args, depth))...)
 		return &Term{Op: "call", Name: name, Args: as}
 	}
 	if f := c.StaticCallee(); f != nil {
-		return &Term{Op: "call", Name: FuncName(f), Args: o.args(c.Args, depth)}
+		if fld := pbGetterField(f); fld != "" && len(c.Args) == 1 {
+			return &Term{Op: "field", Name: fld, Args: []*Term{o.of(c.Args[0], depth+1)}}
+		}
+		return &Term{Op: "call", Name: FuncName(f), Args: spliceVariadic(c, o.args(c.Args, depth))}
 	}
 	if b, ok := c.Value.(*ssa.Builtin); ok {
 		return &Term{Op: "op", Name: b.Name(), Args: o.args(c.Args, depth)}
 	}
 	as := append([]*Term{o.of(c.Value, depth+1)}, o.args(c.Args, depth)...)
 	return &Term{Op: "call", Name: "dyn", Args: as}
+}
+
+var pbGetterMemo = map[*ssa.Function]string{}
+
+// pbGetterField: protobuf-generated getter `func (m *T) GetX() U` (declared in a .pb.go file) reads field X.
+func pbGetterField(f *ssa.Function) string {
+	if r, ok := pbGetterMemo[f]; ok {
+		return r
+	}
+	res := ""
+	defer func() { pbGetterMemo[f] = res }()
+	if f.Signature.Recv() == nil || !strings.HasPrefix(f.Name(), "Get") || f.Signature.Params().Len() != 0 || f.Prog == nil {
+		return ""
+	}
+	file := f.Prog.Fset.Position(f.Pos()).Filename
+	if !strings.HasSuffix(file, ".pb.go") {
+		return ""
+	}
+	st, ok := derefStruct(f.Signature.Recv().Type()).Underlying().(*types.Struct)
+	if !ok {
+		return ""
+	}
+	name := strings.TrimPrefix(f.Name(), "Get")
+	for i := 0; i < st.NumFields(); i++ {
+		if st.Field(i).Name() == name {
+			res = name
+			return res
+		}
+	}
+	return ""
+}
+
+// SpliceVariadic is exported for call-site argument lists.
+func SpliceVariadic(c *ssa.CallCommon, args []*Term) []*Term { return spliceVariadic(c, args) }
+
+// spliceVariadic replaces a trailing list(...) / nil variadic argument by its elements.
+func spliceVariadic(c *ssa.CallCommon, args []*Term) []*Term {
+	sig := c.Signature()
+	if sig == nil || !sig.Variadic() || len(args) == 0 {
+		return args
+	}
+	last := args[len(args)-1]
+	if last.Op == "op" && last.Name == "list" {
+		return append(args[:len(args)-1:len(args)-1], last.Args...)
+	}
+	if last.Op == "const" && last.Name == "nil" {
+		return args[:len(args)-1]
+	}
+	return args
 }
 
 // singleStore returns the only store to a local alloc whose address is used for nothing
@@ -421,13 +556,41 @@ func (o *Origins) load(ld *ssa.UnOp, depth int) *Term {
 			return o.localValue(base, a.Field, ld, depth)
 		}
 		k := fieldKey{derefStruct(a.X.Type()), a.Field}
-		if len(o.fieldStores[k]) > 0 {
-			if st := o.dominatingFieldStore(ld, a); st != nil {
-				return o.of(st.Val, depth+1)
+		base := &Term{Op: "field", Name: fname, Args: []*Term{o.of(a.X, depth+1)}}
+		if len(o.fieldStores[k]) == 0 {
+			return base
+		}
+		// stores to the same field exist: they must all go through the same base pointer value,
+		// then the reaching ones (flow-sensitive) describe the load.
+		for _, st := range o.fieldStores[k] {
+			if st.Addr.(*ssa.FieldAddr).X != a.X {
+				return opaque("mem:" + fname)
 			}
+		}
+		defs, entry := o.reachingFieldDefs(a.X, a.Field, ld)
+		if len(defs) > 6 {
 			return opaque("mem:" + fname)
 		}
-		return &Term{Op: "field", Name: fname, Args: []*Term{o.of(a.X, depth+1)}}
+		var alts []*Term
+		seenAlt := map[string]bool{}
+		if entry {
+			alts = append(alts, base)
+			seenAlt[base.String()] = true
+		}
+		for _, st := range defs {
+			t := o.of(st.Val, depth+2)
+			if !seenAlt[t.String()] {
+				seenAlt[t.String()] = true
+				alts = append(alts, t)
+			}
+		}
+		if len(alts) == 1 {
+			return alts[0]
+		}
+		if len(alts) == 0 {
+			return opaque("mem:" + fname)
+		}
+		return &Term{Op: "phi", Name: "phi", Args: alts}
 	case *ssa.Global:
 		return o.of(a, depth+1)
 	case *ssa.IndexAddr:
@@ -435,7 +598,8 @@ func (o *Origins) load(ld *ssa.UnOp, depth int) *Term {
 	case *ssa.FreeVar:
 		return &Term{Op: "param", Name: a.Name()}
 	}
-	return &Term{Op: "op", Name: "deref", Args: []*Term{o.of(ld.X, depth+1)}}
+	// *p for a pointer that is not a local: transparent (a struct and a pointer to it have the same origin)
+	return o.of(ld.X, depth+1)
 }
 
 // localValue: value of local variable `a` (field `field`, or the whole variable when field<0) just
@@ -505,6 +669,21 @@ func (o *Origins) escapes(a *ssa.Alloc) bool {
 	return false
 }
 
+// reachingFieldDefs: stores to field `field` through pointer value base that may be the latest before at.
+func (o *Origins) reachingFieldDefs(base ssa.Value, field int, at ssa.Instruction) (defs []*ssa.Store, entry bool) {
+	isDef := func(ins ssa.Instruction) *ssa.Store {
+		st, ok := ins.(*ssa.Store)
+		if !ok {
+			return nil
+		}
+		if fa, ok := st.Addr.(*ssa.FieldAddr); ok && fa.X == base && fa.Field == field {
+			return st
+		}
+		return nil
+	}
+	return reaching(isDef, at)
+}
+
 // reachingDefs returns the stores to a (whole-variable stores, and stores to field `field` when
 // field>=0) that may be the most recent one before `at`; entry reports whether the function
 // entry reaches `at` without any such store.
@@ -522,6 +701,10 @@ func (o *Origins) reachingDefs(a *ssa.Alloc, field int, at ssa.Instruction) (def
 		}
 		return nil
 	}
+	return reaching(isDef, at)
+}
+
+func reaching(isDef func(ssa.Instruction) *ssa.Store, at ssa.Instruction) (defs []*ssa.Store, entry bool) {
 	seenDef := map[*ssa.Store]bool{}
 	visited := map[*ssa.BasicBlock]bool{}
 	var walk func(b *ssa.BasicBlock, from int)
